@@ -36,6 +36,25 @@ def safe_load_file(path):
         return None, e
 
 
+_SAME_PATH = {}
+
+
+def safe_load_text_via_file(text):
+    """load() of a file whose earlier version was loaded from the same path just before (an edited script loaded again)."""
+    import atexit, shutil, tempfile
+    if "d" not in _SAME_PATH:
+        _SAME_PATH["d"] = tempfile.mkdtemp(prefix="bbv-samepath-")
+        atexit.register(shutil.rmtree, _SAME_PATH["d"], True)
+    path = os.path.join(_SAME_PATH["d"], "program.xbb")
+    # an earlier version of the file is loaded first, so that the outcome of the case does not depend on earlier cases
+    with open(path, "w", encoding="ascii", newline="") as f:
+        f.write("name previous\nversion 1.0\nVac | 0\n")
+    safe_load_file(path)
+    with open(path, "w", encoding="ascii", newline="") as f:
+        f.write(text)
+    return safe_load_file(path)
+
+
 def safe_dumps(p):
     import blackbird
     try:
